@@ -1260,6 +1260,10 @@ def _malformed(ctx, idx, reqs, pending):
     elif margs is not None:
         reqs.append(('construct', margs))
         pending.append((dict(case, what='construct'), ('ok', None) if st == 'ok' else ('err', _kind(res))))
+    if 'which' in d and d.get('n', 0) >= 1:
+        # where the offending annotation sits among the well-formed ones
+        pos = 'only' if d['n'] == 1 else ('first' if d['which'] == 0 else 'last' if d['which'] == d['n'] - 1 else 'middle')
+        ctx.hist('malformed_annotation_position', f"{d['kind']}/{pos}")
     ctx.case(sample=case if idx % 16 == 0 and idx < 64 else None, malformed=d['kind'], malformed_outcome=(st if st == 'ok' else res),
              nontrivial_key=('bad', d['kind'], d['gtype'], d['dim'], min(d.get('n', 0), 6)))
     if st == 'ok':
